@@ -1197,4 +1197,21 @@ theorem C10_cex_unsupported_partitioner_keeps_ring :
     s.hosts.map (·.h.id) = [1, 2] ∧ s.ring.map (·.2) = some [(10, ⟨1, 1, 1⟩)] ∧
     polLookup s 0 25 = .hosts [⟨1, 1, 1⟩] ∧ PlacementPol.Spec.lookup s 0 25 = .noring := by decide
 
+/-- `C10_pick_spec_layout`: `C10_pick_spec` with its ring hypothesis discharged from the cluster layout — after any
+admissible history in which the hosts the policy currently knows claim pairwise distinct tokens (any number of tokens
+per host), Pick's lookup for every settled keyspace and every token equals Cassandra's placement on the current
+environment; the ring Pick consults is strictly ascending (`C10_ring_sorted`). -/
+theorem C10_pick_spec_layout (sk : Nat) (sch : Nat → Option Strat) (evs : List PolEvent) (hev : Admissible evs)
+    (ks : Nat) (hst : settled (after sk sch evs) ks = true) (t : Int)
+    (hd : C10Ring.DistinctTokens (ownersOf (after sk sch evs).hosts))
+    (hk : ∀ k rfs, (after sk sch evs).schema k = some (.nts rfs) → (rfs.map (·.1)).Nodup) :
+    polLookup (after sk sch evs) ks t = PlacementPol.Spec.lookup (after sk sch evs) ks t := by
+  apply C10_pick_spec sk sch evs hev ks hst t _ hk
+  intro ring hr
+  unfold PlacementPol.Spec.curRing at hr
+  split at hr
+  · cases hr
+    exact (C10_ring_sorted _ hd).1
+  · cases hr
+
 end C10
